@@ -62,6 +62,36 @@ CHECKS = {
             "Fixpoint covers histories of every length over the abstract alphabet (128 states per channel, 16384 for two channels); full alphabet sampled.",
             "Pruning trusts derived Debug; abstraction collapses values to {0,1,127}.",
             "DESIGN.md 4/C11"),
+    "C12": (True,
+            "grammar-based generation: sentences of the documented sequence grammar are constructed by a per-channel simulation that also computes the denotation (exact expected output of every feed/poll); proptest over 1-16 interleaved channels, explicit mock-clock time steps and poll placements; bounded-exhaustive BFS over sentences to a fixpoint on one channel; encode->feed->poll round trip from random prior states",
+            "Sampled over full values / 16 channels / 4 timeouts; fixpoint over an abstract alphabet covers sentences of every length on one channel for timeouts 0 and 3 ns.",
+            "Only documented forms are generated (late polls only at unit boundaries); mock clock replaces std::time::Instant under the cfg hook.",
+            "DESIGN.md 4/C12"),
+    "C13": (True,
+            "stateful property-based testing with an explicit (mock) clock: proptest histories of feeds/polls/time steps below, at and above the timeout judged by a history observer that decides every poll exactly; BFS fixpoints of (scanner, observer) with timeout 3 ns and with a frozen clock; constructed scenario families (unpaired LSB, early-poll twin, poll once, time invisible to feed)",
+            "Sampled histories for timeouts {0, 1 ns, 1 ms, 10 s, Duration::MAX}; fixpoints over an abstract alphabet on one channel.",
+            "Time only advances; style-B keys cap ages at 2T+2 (sound for code that compares elapsed time with the timeout once).",
+            "DESIGN.md 4/C13"),
+    "C14": (True,
+            "stateful property-based testing: proptest histories over the full alphabet incl. malformed traffic, polls, resets and time, every call judged by history-observer invariants (channel, number/kind, value provenance, no duplicate, no loss, result shape); BFS fixpoints of (scanner, observer)",
+            "Sampled over 16 channels and full values; fixpoint over an abstract alphabet on one channel (timeouts 0 and 3 ns).",
+            "The observer asserts only what the property states for malformed traffic.",
+            "DESIGN.md 4/C14"),
+    "C15": (True,
+            "differential / metamorphic testing with a projection oracle: proptest interleavings of up to 16 per-channel histories for all three scanners (each channel's calls must give the same outputs on a scanner of its own); BFS two-channel products (16-31 pairs quick, all 240 ordered pairs thorough)",
+            "Sampled interleavings over the full alphabet; two-channel products to a fixpoint for the non-polling scanners, state-capped for the polling scanner in the quick tier.",
+            "Products use an abstract alphabet (values {0,1}).",
+            "DESIGN.md 4/C15"),
+    "C16": (True,
+            "exhaustive enumeration of (reachable pool state x non-contributing message) pairs and of the predicates over all 128 controller numbers; converse check that every accepted controller matters; proptest metamorphic insertion of non-contributing messages into random histories",
+            "Exhaustive over the pool (single-channel fixpoint states, abstract values) x ~250k non-contributing messages per channel; literal sets for the predicates.",
+            "Pool states come from abstract fixpoints; full-alphabet states only through the random insertion sub-check.",
+            "DESIGN.md 4/C16"),
+    "C17": (True,
+            "differential testing: every fixpoint pool state reset and compared (==, and on abstract continuations) with a new scanner of the same timeout; proptest prefix/suffix histories for reset and for copy-vs-original; new() vs default()",
+            "Exhaustive over the abstract pool states; sampled prefixes/suffixes over the full alphabet and timeouts {0, 1 ns, 1 ms, 10 s, MAX}.",
+            "Equality is the scanners' derived PartialEq.",
+            "DESIGN.md 4/C17"),
 }
 
 ALL = ["C%02d" % i for i in range(1, 20)]
